@@ -49,7 +49,7 @@ def handleRing (toks : List String) : String :=
       let rest0 := (sf.r.log.drop sf.r.tail)
       let q := match endMode with
         | none => ""
-        | some _ => s!" q=max:{ms},empty:{bool01 rest0.isEmpty},prod:{sf.r.head},cons:{sf.r.tail},peek:{showIds rest0},n:{rest0.length},pe:{bool01 rest0.isEmpty},all:1,stop:{min 2 rest0.length}/{bool01 (rest0.length < 2)}"
+        | some _ => s!" q=max:{ms},empty:{bool01 rest0.isEmpty},prod:{sf.r.head},cons:{sf.r.tail},peek:{showIds rest0},n:{rest0.length},pe:{bool01 rest0.isEmpty},all:1,stop:{min 2 rest0.length}/{bool01 (rest0.length < 2)},aup:1"
       let rest := if endMode = some 'd' then rest0.mergeSort (· ≤ ·) else rest0
       let res := "[" ++ ",".intercalate (sf.rets.map fun (e, b) => s!"e{e}:{bool01 b}") ++ "]"
       let summary := s!"done={bool01 allDone} res={res} out={showIds sf.r.out} rest={showIds rest}{q} live=0"
